@@ -13,11 +13,17 @@ from ..corr import Case, drive
 from ..lang import N, P, Some
 from .C06 import has_async
 from .common import generic_replay, run_families, std_case
+from .hist import history_violation, raised, replay_special
 
 ASSUMPTIONS = [
     "trees are well-formed in the sense of Total.wf: predicates/processors typed for their validator, non-zero MultipleOf factors, hashable payloads where a set member or dict key is built, total user callbacks",
     "nesting stays below Python's recursion limit",
 ]
+from ..facts import effects as _effects  # noqa: E402
+_FX = _effects.obligation("C01")
+EXTRA_PROOF_FILES = [_FX[0]]
+TRUSTED_EXTRA = [_FX[1]]
+regenerate_facts = _FX[2]
 DOCUMENTED_ERRS = (KE.CoercionErr, KE.ContainerErr, KE.ExtraKeysErr, KE.IndexErrs, KE.KeyErrs, KE.MapErr,
                    KE.MissingKeyErr, KE.PredicateErrs, KE.SetErrs, KE.TypeErr, KE.ValidationErrBase, KE.UnionErrs)
 
@@ -49,6 +55,20 @@ def cases(tier: str, rng: random.Random) -> List[Case]:
                     c = std_case(v, x, rng.choice(["sync", "async"]), tag="c:hostile-scalar")
                     c.proj = "class"
                     out.append(c)
+        # every typed predicate of every kind, with and without the default coercer, against the
+        # values that resemble the kind's own (subclass instances, other numeric types, parseable text)
+        look = [G.TRUE, G.I(1), G.F1, G.D1, G.S("a"), G.S("1.5"), G.B(b"a"), G.DATE1, G.DT1, G.DTA, G.UUID1,
+                G.INTSUB, G.STRSUB, G.NONE, G.S("2020-01-02"), G.S("2020-01-02T03:04:05"), G.DNAN]
+        for kind in G.KINDS:
+            cos = [None] + ([Some((G.DEFAULT_CO[kind],))] if kind in G.DEFAULT_CO else [])
+            for co in cos:
+                for p in G.typed_preds(kind, rng):
+                    if kind in ("KDecimal", "KDatetime") and p[0] in ("PMin", "PMax", "PEqualTo", "PMultipleOf", "PChoices"):
+                        continue        # the recorded Decimal / datetime findings; their witnesses run separately
+                    for x in look:
+                        c = std_case(("Scalar", (kind,), co, [], [p], []), x, rng.choice(["sync", "async"]), tag="c:lookalike")
+                        c.proj = "class"
+                        out.append(c)
         # container predicates over hostile element lists (unhashables hidden inside hashable-looking items)
         for _ in range(150 if tier == "quick" else 2000):
             xs = [rng.choice(G.HOSTILE) for _ in range(rng.choice([0, 1, 2, 3, 4]))]
@@ -175,9 +195,50 @@ def nontrivial(c: Case) -> bool:
     return c.v[0] != "Scalar" or c.tag.startswith("c:")
 
 
+def histories(tier: str, rng: random.Random):
+    """Totality on a used instance: calls of both styles, in any order, on one validator object
+    (wrappers that resolve or remember something on first use are the interesting ones)."""
+    bad, n = [], 0
+    G.WF_ONLY[0] = True
+    try:
+        for i in range(150 if tier == "quick" else 3000):
+            lazy = [G.gen_validator(rng, rng.choice([0, 1]), allow_async=False)]
+            r = rng.random()
+            if r < 0.3:
+                v = ("LazyV", N(0), rng.random() < 0.5)
+            elif r < 0.5:
+                v = (rng.choice(["ListV", "SetV"]), ("LazyV", N(0), True), [], [], None)
+            elif r < 0.6:
+                v = ("CacheV", ("LazyV", N(0), False))
+            else:
+                v = G.gen_validator(rng, rng.choice([1, 2]), allow_async=False, lazy_n=1)
+            ops = []
+            for _ in range(rng.choice([2, 3, 4])):
+                x = G.valid_input(v, rng, lazy)
+                if rng.random() < 0.25:
+                    x = G.corrupt(x, rng)
+                ops.append((rng.choice(["sync", "async"]), x))
+            if len({m for m, _ in ops}) == 1:
+                ops.append(("async" if ops[0][0] == "sync" else "sync", ops[0][1]))
+            n += 1
+            viol = history_violation("C01", v, lazy, ops, judge=raised)
+            if viol and not any(b["signature"] == viol["signature"] for b in bad):
+                bad.append(viol)
+    finally:
+        G.WF_ONLY[0] = False
+    return bad, n
+
+
 def run(tier: str, rng: random.Random, proof_ok: bool) -> dict:
-    return run_families("C01", cases(tier, rng), rng, oracle, nontrivial)
+    rep = run_families("C01", cases(tier, rng), rng, oracle, nontrivial)
+    bad, n = histories(tier, rng)
+    rep["violations"] += bad
+    rep["coverage"]["mixed_style_histories_on_one_instance"] = n
+    return rep
 
 
 def replay(path: str) -> int:
-    return generic_replay(path, oracle)
+    import json
+    rc = json.load(open(path)).get("replay_case")
+    r = replay_special(rc, "C01", judge=raised) if isinstance(rc, dict) else None
+    return r if r is not None else generic_replay(path, oracle)
